@@ -1,10 +1,16 @@
 (* Extraction of the executable models and specifications for the correspondence check.
    Only ExtrOcamlBasic is used: bool, option, list, prod, unit, sumbool map to the OCaml types;
    Z, N, positive, nat stay the extracted inductive types. No Extract Constant. *)
-(* DEPS: Base.v ScriptNum.v *)
+(* DEPS: Base.v ScriptNum.v Gen/Consts.v Gen/Sites.v Gen/OpNames.v Script.v Interp.v Session.v Value.v Der.v Hashes.v *)
 From Coq Require Import Extraction ExtrOcamlBasic.
-From BV Require Import Base ScriptNum.
+From BV Require Import Base ScriptNum Script Interp Session Value Der Hashes.
+From BV.Gen Require Import Consts Sites OpNames.
 Extraction Language OCaml.
 Set Extraction Optimize.
 Extraction "../ocaml/model.ml" sn_ctor sn_serialize sn_getint value_int_hex_str value_int_data_value value_data_int_value
-  hexstr.
+  hexstr
+  setup_env inst_step dbg_rewind dbg_continue continue_fuel inst_eval at_start init_execdata cs_at
+  exec_compile btcc arg_data value_of_string value_emit
+  low_s_strict sha256 ripemd160 sha1
+  has_valid_ops decode_ops get_op push_data push_int64 check_minimal_push cast_to_bool find_and_delete
+  STANDARD_SCRIPT_VERIFY_FLAGS.
